@@ -21,7 +21,7 @@ impl Prop for Histories {
         "histories"
     }
     fn cases(&self, tier: Tier) -> u64 {
-        tier.pick(750_000, 12_000_000)
+        tier.pick(750_000, 4_000_000)
     }
     fn strategy(&self, tier: Tier) -> BoxedStrategy<History> {
         let mut shape = HistoryShape::default_for(tier);
